@@ -93,18 +93,13 @@ namespace DFS
 	// in the root.  So, it's possible that this assertion may
 	// fire for non-root HDFS directories.
 	assert(disc_format() != Format::HDFS);
-	if (byte106 & 4)
-	  {
-	    // Watford large disk; TODO: decide whether the Format
-	    // enum should distinguish those.
-	    assert(disc_format() == Format::WDFS);
-	  }
-	else
-	  {
-	    assert(disc_format() == Format::WDFS ||
-		   disc_format() == Format::DFS ||
-		   disc_format() == Format::OpusDDOS);
-	  }
+	// Bit 2 marks a Watford "large disc" (it is bit 10 of the sector
+	// count).  The format prober does not insist that such a disc
+	// also carries the Watford DFS catalogue marker, so all we can
+	// say here is that the format is not HDFS.
+	assert(disc_format() == Format::WDFS ||
+	       disc_format() == Format::DFS ||
+	       disc_format() == Format::OpusDDOS);
       }
   }
 
